@@ -59,10 +59,14 @@ def gen_cases(tier, seed):
                         if seq is False and rng.random() < 0.5:
                             continue
                         yield C(w="hosvd_tol", fam=fam, shape=shape, dseed=dseed, mode=mode, cut=cut, side=side, sequential=seq,
-                                dimorder=[int(x) for x in rng.permutation(N)] if rng.random() < 0.5 else None)
+                                dimorder=[int(x) for x in rng.permutation(N)] if rng.random() < 0.5 else None,
+                                scale=[1.0, 1.0, 1e-3, 1e2][int(rng.integers(0, 4))])
         for tol in (0.01, 0.1, 0.3, 0.5, 0.9, 0.999):
             yield C(w="hosvd_grid", fam=fam, shape=shape, dseed=dseed, tol=tol, sequential=bool(rng.integers(0, 2)),
                     dimorder=[int(x) for x in rng.permutation(N)] if rng.random() < 0.5 else None)
+            # the bound is relative: it must hold for data of any norm (well below and well above 1)
+            yield C(w="hosvd_grid", fam=fam, shape=shape, dseed=dseed, tol=tol, sequential=bool(rng.integers(0, 2)), dimorder=None,
+                    scale=[1e-3, 1e-2, 1e3][int(rng.integers(0, 3))])
     for shape in [[2, 3], [3, 2, 2]] + ([[3, 3, 2], [2, 2, 2, 2]] if tier == "thorough" else []):
         dseed = int(rng.integers(0, 2 ** 31))
         for ranks in itertools.product(*[range(1, s + 1) for s in shape]):
@@ -76,6 +80,12 @@ def gen_cases(tier, seed):
         for p in itertools.permutations(range(3)):
             yield C(w="hosvd_grid", fam="random", shape=shape, dseed=7, tol=0.2, sequential=True, dimorder=list(p))
             yield C(w="hosvd_ranks", fam="random", shape=shape, dseed=7, ranks=[2, 2, 1], sequential=True, dimorder=list(p))
+    # Tucker-ALS with unbalanced rank vectors (R_n > product of the other ranks): the leading vectors are not unique there, so only the
+    # structural contract is judged (requested ranks, orthonormal factors, core relation, reported fit)
+    for shape, ranks in (([3, 4, 4], [3, 1, 2]), ([4, 3, 5], [1, 2, 1]), ([4, 3], [4, 2]), ([3, 3, 3], [3, 1, 1]), ([5, 2, 2], [5, 2, 2])):
+        for init in ("random", "nvecs"):
+            yield C(w="tucker_als", fam="random", shape=shape, dseed=int(rng.integers(0, 2 ** 31)), ranks=ranks, init=init, scalar_rank=False,
+                    dimorder=None, maxiters=int(rng.integers(1, 4)), printitn=0, gseed=int(rng.integers(0, 2 ** 31)), unbalanced=True)
     # Tucker-ALS
     nals = 60 if tier == "quick" else 600
     for i in range(nals):
@@ -93,6 +103,10 @@ def gen_cases(tier, seed):
 
 
 def _data(case):
+    return _data0(case) * float(case.get("scale", 1.0))
+
+
+def _data0(case):
     rng = np.random.default_rng(case["dseed"])
     shape = tuple(case["shape"])
     if case["fam"] == "designed":
@@ -230,5 +244,7 @@ def run_case(case, ctx):
             core = refops.ttm(A, U, list(range(N)), transpose=True)
             energies.append(float(np.sum(core ** 2)))
         energies.append(float(np.sum(denote(T.core) ** 2)))
+        if case.get("unbalanced"):
+            return
         for a, b in zip(energies, energies[1:]):
             ctx.check(b >= a - 1e4 * EPS * normX ** 2, "tucker_als", "NON-MONOTONE", f"captured energy fell from {a!r} to {b!r} between sweeps (sequence {energies})")
